@@ -340,46 +340,82 @@ func cutSet(n, j, maxCuts int) []int {
 }
 
 // crashCheck examines every crash image of one WriteSector: pre = file image before the call, ws = recorded writes,
-// idx = the chunk being written. Returns (points, bad).
-func (rr *regionRun) crashCheck(pre []byte, ws []wrec, idx int) (points, bad int) {
+// idx = the chunk being written. Every image is re-opened TWICE with Load and read in two orders on the same
+// re-opened Region: the chunk being written first (any outcome is acceptable for it; only whether it read ok is
+// counted), then every other chunk and every absent coordinate; and the other way round.
+// Returns (points, bad, wok): images examined, images in which (in either order) some OTHER chunk does not read back
+// its last written bytes / an absent chunk does not report absence (ErrNoSector, ExistSector false) / Load failed,
+// and images in which the written chunk itself read without error (first order).
+func (rr *regionRun) crashCheck(pre []byte, ws []wrec, idx int) (points, bad, wok int) {
+	others := func(r *region.Region) bool {
+		for k := 0; k < 1024; k++ {
+			if k == idx {
+				continue
+			}
+			x, z := k%32, k/32
+			t, present := rr.truth[k]
+			if !present {
+				if r.ExistSector(x, z) {
+					return false
+				}
+				if _, err := r.ReadSector(x, z); !errors.Is(err, region.ErrNoSector) {
+					return false
+				}
+				continue
+			}
+			if len(t.data) == 0 {
+				continue
+			}
+			d, err := r.ReadSector(x, z)
+			if err != nil || string(d) != string(t.data) {
+				return false
+			}
+		}
+		return true
+	}
+	written := func(r *region.Region) bool {
+		if idx < 0 {
+			return false
+		}
+		_ = r.ExistSector(idx%32, idx/32)
+		_, err := r.ReadSector(idx%32, idx/32)
+		return err == nil
+	}
 	check := func(img []byte) {
 		points++
-		var ok = true
+		ok, w := true, false
 		st := guardT(30*time.Second, func() {
+			// order 1: the half-written chunk first, then everything else on the same Region
 			r, err := region.Load(&memFile{buf: img})
 			if err != nil {
 				ok = false
 				return
 			}
-			for k := 0; k < 1024; k++ {
-				if k == idx {
-					continue
-				}
-				x, z := k%32, k/32
-				t, present := rr.truth[k]
-				if !present {
-					if r.ExistSector(x, z) {
-						ok = false
-						return
-					}
-					if _, err := r.ReadSector(x, z); err == nil {
-						ok = false
-						return
-					}
-					continue
-				}
-				if len(t.data) == 0 {
-					continue
-				}
-				d, err := r.ReadSector(x, z)
-				if err != nil || string(d) != string(t.data) {
-					ok = false
-					return
-				}
+			w = written(r)
+			if !others(r) {
+				ok = false
+			}
+			// order 2: everything else first, the half-written chunk last, and the others once more after it
+			r, err = region.Load(&memFile{buf: img})
+			if err != nil {
+				ok = false
+				return
+			}
+			if !others(r) {
+				ok = false
+			}
+			if written(r) != w {
+				ok = false
+			}
+			if !others(r) {
+				ok = false
 			}
 		})
 		if st != "" || !ok {
 			bad++
+		}
+		if w {
+			wok++
 		}
 	}
 	cur := append([]byte(nil), pre...)
@@ -393,6 +429,16 @@ func (rr *regionRun) crashCheck(pre []byte, ws []wrec, idx int) (points, bad int
 		check(append([]byte(nil), cur...))
 	}
 	return
+}
+
+// ageTimestamps rewrites the timestamp table of a file image as an older file would have it: one day is subtracted
+// from every non-zero entry.
+func ageTimestamps(sector []byte) {
+	for k := 0; k < 1024; k++ {
+		if v := binary.BigEndian.Uint32(sector[4*k:]); v != 0 {
+			binary.BigEndian.PutUint32(sector[4*k:], v-86400)
+		}
+	}
 }
 
 func (rr *regionRun) step(op string) string {
@@ -443,11 +489,11 @@ func (rr *regionRun) step(op string) string {
 			if ws == "" {
 				ws = "-"
 			}
-			points, bad := 0, 0
+			points, bad, wok := 0, 0, 0
 			if st != "hang" {
-				points, bad = rr.crashCheck(pre, rr.rec, idx)
+				points, bad, wok = rr.crashCheck(pre, rr.rec, idx)
 			}
-			obs = fmt.Sprintf("%s;W=%s;C=%d:%d", obs, ws, points, bad)
+			obs = fmt.Sprintf("%s;W=%s;C=%d:%d:%d", obs, ws, points, bad, wok)
 		}
 		if st == "" && err == nil && idx >= 0 {
 			rr.truth[idx] = truthCell{data}
@@ -492,6 +538,49 @@ func (rr *regionRun) step(op string) string {
 				_ = rr.r.Close()
 				nr, err = region.Open(rr.path)
 			} else {
+				_, _ = rr.mf.Seek(0, io.SeekStart)
+				nr, err = region.Load(rr.mf)
+			}
+		})
+		if st != "" || err != nil {
+			rr.failed = true
+			if st != "" {
+				return st
+			}
+			return "err"
+		}
+		rr.r = nr
+		return "ok"
+	case "a":
+		// an aged file: the timestamp table of the backing file is rewritten to older values behind the Region's
+		// back (as if the file had been written a day ago), then the file is re-opened.
+		var err error
+		var nr *region.Region
+		st := guardT(20*time.Second, func() {
+			if rr.mode == "file" {
+				_ = rr.r.Close()
+				var f *os.File
+				f, err = os.OpenFile(rr.path, os.O_RDWR, 0o666)
+				if err != nil {
+					return
+				}
+				sec := make([]byte, 4096)
+				if _, err = f.ReadAt(sec, 4096); err == nil {
+					ageTimestamps(sec)
+					_, err = f.WriteAt(sec, 4096)
+				}
+				if cerr := f.Close(); err == nil {
+					err = cerr
+				}
+				if err == nil {
+					nr, err = region.Open(rr.path)
+				}
+			} else {
+				if len(rr.mf.buf) < 8192 {
+					err = errors.New("short file")
+					return
+				}
+				ageTimestamps(rr.mf.buf[4096:8192])
 				_, _ = rr.mf.Seek(0, io.SeekStart)
 				nr, err = region.Load(rr.mf)
 			}
@@ -641,6 +730,7 @@ func genRegionOps(c *Ctx, nops int, big bool, maxK int, crash bool) string {
 	cells := regionCells(c)
 	pick := func() cell { return cells[c.R.Intn(len(cells))] }
 	var ops []string
+	last := map[cell]int{} // last accepted payload length per cell
 	seed := c.R.Intn(1 << 20)
 	for len(ops) < nops {
 		p := c.R.Intn(100)
@@ -651,7 +741,11 @@ func genRegionOps(c *Ctx, nops int, big bool, maxK int, crash bool) string {
 				cl = [4]cell{{32, 0}, {0, 32}, {-1, 3}, {3, -1}}[c.R.Intn(4)]
 			}
 			seed++
-			ops = append(ops, fmt.Sprintf("w:%d:%d:s%d:%d", cl.x, cl.z, seed, regionSize(c, big, maxK)))
+			n := regionSize(c, big, maxK)
+			if n <= 1044476 && cl.x >= 0 && cl.x < 32 && cl.z >= 0 && cl.z < 32 {
+				last[cl] = n
+			}
+			ops = append(ops, fmt.Sprintf("w:%d:%d:s%d:%d", cl.x, cl.z, seed, n))
 		case p < 75:
 			cl := pick()
 			if c.R.Intn(8) == 0 {
@@ -667,7 +761,11 @@ func genRegionOps(c *Ctx, nops int, big bool, maxK int, crash bool) string {
 		case p < 86:
 			ops = append(ops, "p")
 		case p < 92:
-			ops = append(ops, "l")
+			if c.R.Intn(3) == 0 {
+				ops = append(ops, "a") // aged file: older timestamps on disk, then re-open
+			} else {
+				ops = append(ops, "l")
+			}
 		default:
 			if !crash {
 				ops = append(ops, "c")
@@ -683,6 +781,18 @@ func genRegionOps(c *Ctx, nops int, big bool, maxK int, crash bool) string {
 			ops = append(ops, fmt.Sprintf("r:%d:%d", cl.x, cl.z))
 		}
 		ops = append(ops, "l", "c")
+		// aged file, then overwrites that keep the sector count (in place: the header is not rewritten), then the
+		// memory-vs-reload comparison
+		ops = append(ops, "a")
+		done := 0
+		for _, cl := range cells {
+			if n, ok := last[cl]; ok && done < 3 && n < 300000 {
+				seed++
+				ops = append(ops, fmt.Sprintf("w:%d:%d:s%d:%d", cl.x, cl.z, seed, n))
+				done++
+			}
+		}
+		ops = append(ops, "c", "l", "c")
 	}
 	return strings.Join(ops, ",")
 }
